@@ -17,12 +17,12 @@ from .common import (P, box, check_defined, evalf, load_sym, model_floats, not_c
 from .c08 import load_fluid_with_ufs
 
 
-def replay_facade(model, method="oil_FVF", reassigned=False, container="array"):
+def replay_facade(model, method="oil_FVF", reassigned=False, container="array", three=False):
     import numpy as np
     from bluebonnet.fluids import Fluid
     from bluebonnet.fluids import gas, oil, water
-    m = model_floats(model, ["T", "api", "gg", "rsi", "S", "Swi", "p0", "p1", "Tpc", "ppc"],
-                     default=dict(T=200.0, api=35.0, gg=0.8, rsi=650.0, S=5.0, Swi=0.1, p0=1500.0, p1=3500.0, Tpc=-72.0, ppc=653.0))
+    m = model_floats(model, ["T", "api", "gg", "rsi", "S", "Swi", "p0", "p1", "p2", "Tpc", "ppc"],
+                     default=dict(T=200.0, api=35.0, gg=0.8, rsi=650.0, S=5.0, Swi=0.1, p0=1500.0, p1=3500.0, p2=800.0, Tpc=-72.0, ppc=653.0))
     if reassigned:
         # built for one fluid, then its public attributes are set to the witness' values (Fluid is a plain mutable dataclass)
         f = Fluid(150.0, 28.0, 0.65, 400.0, 2.0, 0.2)
@@ -32,7 +32,7 @@ def replay_facade(model, method="oil_FVF", reassigned=False, container="array"):
         f.temperature, f.api_gravity, f.gas_specific_gravity, f.solution_gor_initial, f.salinity = m["T"], m["api"], m["gg"], m["rsi"], m["S"]
     else:
         f = Fluid(m["T"], m["api"], m["gg"], m["rsi"], m["S"], m["Swi"])
-    p = np.array([m["p0"], m["p1"]])
+    p = np.array([m["p0"], m["p1"]] + ([m["p2"]] if three else []))
     ref = {
         "water_FVF": lambda q: water.b_water_McCain(m["T"], q),
         "water_viscosity": lambda q: water.viscosity_water_McCain(m["T"], q, m["S"]),
@@ -63,6 +63,18 @@ def replay_facade(model, method="oil_FVF", reassigned=False, container="array"):
         return True, {"what": f"Fluid.{method} modified (or returned) the caller's pressure array: {before.tolist()} -> {np.asarray(p).tolist()}", "inputs": m}
     want = np.array([float(ref[method](q)) for q in p])
     bad = got.shape != want.shape or bool(np.any(np.abs(got - want) > 1e-12 * np.abs(want)))
+    if not bad and three:
+        # orders whose sorting permutation is not its own inverse, and a repeated pressure
+        for q in ([2500.0, 500.0, 4000.0, 1500.0], [3000.0, 1000.0, 3000.0], [m["p1"], m["p2"], m["p0"]]):
+            q = np.array(q)
+            a2 = (q, m["Tpc"], m["ppc"]) if method.startswith("gas") else (q,)
+            try:
+                g2 = np.array(getattr(f, method)(*a2), dtype=float)
+            except Exception as ex:  # noqa: BLE001
+                return True, {"what": f"Fluid.{method} raised {ex!r} on pressures {q.tolist()}", "inputs": m}
+            w2 = np.array([float(ref[method](x)) for x in q])
+            if g2.shape != w2.shape or bool(np.any(np.abs(g2 - w2) > 1e-12 * np.abs(w2))):
+                return True, {"what": f"Fluid.{method} (pressures {q.tolist()}) = {g2.tolist()} vs stand-alone correlation {w2.tolist()}", "inputs": m}
     return bad, {"what": f"Fluid.{method} ({container} of pressures {p.tolist()}) = {got.tolist()} vs stand-alone correlation {want.tolist()}", "inputs": m}
 
 
@@ -83,6 +95,8 @@ def replay_sutton(model, case="no contaminants", fluid="dry gas"):
 
 
 def _plain_obligations(job, f, dom, want, p):
+    n = len(p.d)
+    rkw = {"three": True} if n == 3 else {}
     for name, (args, ref) in want.items():
         def run_plain():
             snap = list(p.d)
@@ -92,20 +106,20 @@ def _plain_obligations(job, f, dom, want, p):
             return out, touched
         for k, pr in enumerate(paths(job, run_plain, dom)):
             if pr.exc is not None:
-                job.prove(f"facade/{name} raises[path{k}]", pr.pc, bound="2 pressures", replay=(replay_facade, {"method": name}), note=repr(pr.exc)[:80])
+                job.prove(f"facade/{name} raises[{n} pressures, path{k}]", pr.pc, bound=f"{n} pressures", replay=(replay_facade, dict(rkw, method=name)), note=repr(pr.exc)[:80])
                 continue
             got, touched = pr.value
             if touched:
                 job._violation(f"facade/{name} leaves the caller's pressure array alone[path{k}]", {},
-                               {"what": "the pressure array was written to (or returned) by the method", "replayer": "replay_facade", "replayer_kwargs": {"method": name}}, None)
+                               {"what": "the pressure array was written to (or returned) by the method", "replayer": "replay_facade", "replayer_kwargs": dict(rkw, method=name)}, None)
             else:
                 job.record(f"facade/{name} leaves the caller's pressure array alone[path{k}]", "unsat", 0.0, note="effect check on the path: same elements, result is another object")
-            if not isinstance(got, SymArray) or len(got) != 2:
-                job.errors.append(f"facade/{name}: result is not a length-2 array")
+            if not isinstance(got, SymArray) or len(got) != n:
+                job.prove(f"facade/{name}: result has one element per pressure[{n} pressures, path{k}]", pr.pc, bound=f"{n} pressures", replay=(replay_facade, dict(rkw, method=name)))
                 continue
-            job.prove(f"facade/{name}==stand-alone correlation element-wise[path{k}]",
-                      pr.pc + [T.b_or(*[not_close(got.d[j], ref(p.d[j]), abs_tol=Fraction(0)) for j in range(2)])], bound="2 pressures",
-                      replay=(replay_facade, {"method": name}))
+            job.prove(f"facade/{name}==stand-alone correlation element-wise[{n} pressures in any order, path{k}]" if n != 2 else f"facade/{name}==stand-alone correlation element-wise[path{k}]",
+                      pr.pc + [T.b_or(*[not_close(got.d[j], ref(p.d[j]), abs_tol=Fraction(0)) for j in range(n)])], bound=f"{n} pressures",
+                      replay=(replay_facade, dict(rkw, method=name)))
 
 
 def _container_obligations(job, f, vs, dom, want, p, names=None):
@@ -239,6 +253,30 @@ def job_facade_oil_reassigned(job):
             "oil_viscosity": ((p,), lambda q: ufs["viscosity_beggs_robinson"](T_, q, api, gg, rsi))}
     _reassigned_obligations(job, mod, vs, dom, want, p)
     job.prove("facade-oil/reach", dom, expect="sat")
+
+
+def job_facade_three(job):
+    """Three pressures in any order (sorted, unsorted, with repeats) through every facade method: one result per pressure,
+    in the caller's order."""
+    mod, gas, ufs = load_fluid_with_ufs()
+    job.encoded(mod, "Fluid.water_FVF", "Fluid.water_viscosity", "Fluid.gas_FVF", "Fluid.gas_viscosity", "Fluid.oil_FVF", "Fluid.oil_viscosity")
+    job.stub("stand-alone correlations imported by fluid.py: uninterpreted recording functions of their arguments")
+    job.bound(facade_array_length=3, order="any (no ordering assumed between the three pressures; equal pressures allowed)")
+    vs, dom = box(None, T=(60, 400), api=(10, 60), gg=("0.5", "1.5"), rsi=(0, 3000), S=(0, 25), Swi=(0, 1), p0=(15, 20000), p1=(15, 20000), p2=(15, 20000),
+                  Tpc=(-200, 100), ppc=(200, 1500))
+    f = mod.Fluid(vs["T"], vs["api"], vs["gg"], vs["rsi"], vs["S"], vs["Swi"])
+    p = SymArray([vs["p0"], vs["p1"], vs["p2"]], "f8")
+    T_, api, gg, rsi, S = (vs[k] for k in ("T", "api", "gg", "rsi", "S"))
+    want = {
+        "water_FVF": ((p,), lambda q: ufs["b_water_McCain"](T_, q)),
+        "water_viscosity": ((p,), lambda q: ufs["viscosity_water_McCain"](T_, q, S)),
+        "gas_FVF": ((p, vs["Tpc"], vs["ppc"]), lambda q: ufs["b_factor_DAK"](T_, q, vs["Tpc"], vs["ppc"])),
+        "gas_viscosity": ((p, vs["Tpc"], vs["ppc"]), lambda q: ufs["viscosity_Sutton"](T_, q, vs["Tpc"], vs["ppc"], gg)),
+        "oil_FVF": ((p,), lambda q: ufs["b_o_Standing"](T_, q, api, gg, rsi)),
+        "oil_viscosity": ((p,), lambda q: ufs["viscosity_beggs_robinson"](T_, q, api, gg, rsi)),
+    }
+    _plain_obligations(job, f, dom, want, p)
+    job.prove("facade-three/reach", dom, expect="sat")
 
 
 def job_facade(job):
@@ -401,7 +439,7 @@ FALLBACK = [(replay_facade, {"method": m_}) for m_ in ("water_FVF", "water_visco
 
 
 def jobs(tier):
-    out = [("facade", job_facade), ("table45", lambda j: job_table(j, 45)), ("sutton", job_sutton), ("unknown-fluid", job_unknown_fluid)]
+    out = [("facade", job_facade), ("facade-three-pressures", job_facade_three), ("table45", lambda j: job_table(j, 45)), ("sutton", job_sutton), ("unknown-fluid", job_unknown_fluid)]
     if tier != "quick":
         out.append(("table75", lambda j: job_table(j, 75)))
         out.append(("table50", lambda j: job_table(j, 50)))
